@@ -137,11 +137,16 @@ class QSim:
         c["state"] = "waiting"
         c["waiting"] = False
         try:
-            if c.get("end") == "gx":
+            if c.get("end") in ("gx", "gxs"):
                 self.stats["fault:block_left_by_generator_close"] += 1
                 g = self._agen_block(c)
                 try:
-                    await g.__anext__()
+                    if c.get("end") == "gxs":
+                        # the block is ENTERED by another task (a helper pulls the first item) and LEFT by this one
+                        self.stats["fault:block_entered_and_left_by_different_tasks"] += 1
+                        await self.loop.create_task(g.__anext__())
+                    else:
+                        await g.__anext__()
                     for k in range(c["gates"]):
                         fut = self.loop.create_future()
                         self.gates[("b", c["label"], k)] = fut
@@ -400,7 +405,7 @@ class QGen:
                 self.clabel += 1
                 st = {"op": "consumer", "c": self.clabel, "g": rng.choice([0, 1, 1, 2])}
                 if rng.random() < 0.15:
-                    st["end"] = rng.choice(["x", "x", "bx", "gx"])
+                    st["end"] = rng.choice(["x", "x", "bx", "gx", "gxs"])
                 r = rng.random()
                 if r < 0.12:
                     st["nest"] = 1
